@@ -81,7 +81,7 @@ def runAll (cfg : List Ix) (bk : Nat) (ids objs : List String) :
     St → List Ev → List Json → Option (List Json)
   | _, [], acc => some acc.reverse
   | s, e :: es, acc =>
-    match step J.pyEq cfg bk s e with
+    match step cfg bk s e with
     | none => none
     | some s' => runAll cfg bk ids objs s' es (snapshot ids objs s' :: acc)
 
